@@ -92,10 +92,12 @@ PrimeTable == PrimesUpTo(TableEnd, <<>>)          \* constant: evaluated once by
 TablePick(size) == PrimeTable[Cardinality({i \in 1..Len(PrimeTable) : PrimeTable[i] <= size})]
 
 (* ============================================================ Zadoff-Chu exponents == *)
-\* calcBaseZC(N, u): element n is exp(-j pi u n (n+1) / N)
-ZcExp(N, u, n) == IF Dev.NSquaredPhase THEN (((u * n) % (2 * N)) * n) % (2 * N)
-                  ELSE (((u * n) % (2 * N)) * (n + 1)) % (2 * N)
-ZcSeq(N, u) == TLCEval([i \in 1..N |-> ZcExp(N, u, i - 1)])             \* 1-based: position i-1
+\* calcBaseZC(N, u, q): element n is exp(-j pi u n (n + 1 + 2q) / N); q = 0 is the root sequence
+ZcExpQ(N, u, q, n) == IF Dev.NSquaredPhase THEN (((u * n) % (2 * N)) * (n + 2 * q)) % (2 * N)
+                      ELSE (((u * n) % (2 * N)) * (n + 1 + 2 * q)) % (2 * N)
+ZcExp(N, u, n) == ZcExpQ(N, u, 0, n)
+ZcSeqQ(N, u, q) == TLCEval([i \in 1..N |-> ZcExpQ(N, u, q, i - 1)])     \* 1-based: position i-1
+ZcSeq(N, u) == ZcSeqQ(N, u, 0)
 
 \* get_extended_ZF(root, size): position i (0-based) takes root position i mod N
 ExtSrc(N, i) == IF Dev.ZeroPadExtension /\ i >= N THEN -1 ELSE i % N
@@ -111,7 +113,7 @@ Ramp(ncs, D, size) == TLCEval([i \in 1..size |-> (ncs * (i - 1)) % RampDen(D)])
 \* exponent t (mod 2N) is +w^r for t = 2r and -w^r for t = 2r + N  (w = exp(-2 pi j / N))
 RECURSIVE CoefAcc(_, _, _, _)
 CoefAcc(N, ts, i, f) ==
-  IF i > Len(ts) THEN f
+  IF i > N THEN f
   ELSE LET t == ts[i]
            r == IF t % 2 = 0 THEN t \div 2 ELSE ((t + N) % (2 * N)) \div 2
            s == IF t % 2 = 0 THEN 1 ELSE -1
@@ -145,9 +147,9 @@ FlatAt(N, e, k) == LET cc == PowerCoef(N, SpecCoef(N, e, k))
                    IN AllEqual([m \in 0..(N - 1) |-> IF m = 0 THEN cc[0] - N ELSE cc[m]])
 
 (* ---- exact zero test in Z[zeta_8] and Z[zeta_12] (cyclic shifts) -------------------- *)
-RECURSIVE CountAcc(_, _, _)
-CountAcc(ts, i, f) == IF i > Len(ts) THEN f ELSE CountAcc(ts, i + 1, [f EXCEPT ![ts[i]] = @ + 1])
-Count(D, ts) == CountAcc(ts, 1, [r \in 0..(D - 1) |-> 0])
+RECURSIVE CountAcc(_, _, _, _)
+CountAcc(ts, n, i, f) == IF i > n THEN f ELSE CountAcc(ts, n, i + 1, [f EXCEPT ![ts[i]] = @ + 1])
+Count(D, ts) == CountAcc(ts, Len(ts), 1, [r \in 0..(D - 1) |-> 0])
 ZeroSum8(q)  == \A r \in 0..3 : q[r] = q[r + 4]                       \* zeta^4 = -1
 ZeroSum12(q) == LET a == [r \in 0..5 |-> q[r] - q[r + 6]]             \* zeta^6 = -1
                 IN \* zeta^4 = zeta^2 - 1, zeta^5 = zeta^3 - zeta ; basis 1, zeta, zeta^2, zeta^3
@@ -359,7 +361,7 @@ PrimeIsLargest == (Is("prime") \/ Is("root") \/ Is("ue")) =>
                      /\ 2 * c.nzc > c.size
 
 \* every element is a point of the unit circle (an exponent), never "amplitude zero"
-ConstantAmplitude == (Is("zc") \/ Is("ext") \/ Is("root") \/ Is("ue")) =>
+ConstantAmplitude == (Is("zc") \/ Is("ext") \/ Is("root") \/ Is("root-explicit") \/ Is("ue")) =>
                         \A i \in DOMAIN c.e : c.e[i] \in 0..(2 * (IF Is("zc") \/ Is("ext") THEN c.n ELSE c.nzc) - 1)
 
 \* zero cyclic autocorrelation at every lag with u tau # 0 (mod N), peak N otherwise
@@ -380,7 +382,7 @@ CyclicExtension == Is("ext") =>
    /\ \A i \in 1..c.size : i <= c.n => c.e[i] = ZcSeq(c.n, c.u)[i]
    /\ \A i \in 1..c.size : i > c.n => c.e[i] = c.e[i - c.n]
    /\ \A i \in 1..c.size : c.e[i] = ZcExp(c.n, c.u, i - 1)
-RootIsExtendedZc == Is("root") =>
+RootIsExtendedZc == (Is("root") \/ Is("root-explicit")) =>
    /\ Len(c.e) = Len(c.idx)
    /\ \A i \in 1..Len(c.idx) : c.e[i] = ZcExp(c.nzc, c.u, c.idx[i] % c.nzc)
 UeIsShiftedRoot == Is("ue") =>
